@@ -73,6 +73,15 @@ def write_channels(prob, tmp):
         pd.DataFrame([STREAM_HDR[0], STREAM_HDR[1]] + stream_rows(prob)).to_excel(xw, sheet_name="Stream Data", header=False, index=False)
         pd.DataFrame([UTIL_HDR[0], UTIL_HDR[1]] + util_rows(prob)).to_excel(xw, sheet_name="Utility Data", header=False, index=False)
     src["xlsx"] = xd
+    # the same tables with an EMPTY spacer row after the first data row (a user separating blocks of rows by hand)
+    def spaced(rows, width):
+        return rows[:3] + [[None] * width] + rows[3:] if len(rows) > 3 else rows
+    xs = os.path.join(tmp, "xlsx-spaced", "Project.xlsx")
+    os.makedirs(os.path.dirname(xs), exist_ok=True)
+    with pd.ExcelWriter(xs, engine="openpyxl") as xw:
+        pd.DataFrame(spaced([STREAM_HDR[0], STREAM_HDR[1]] + stream_rows(prob), len(STREAM_HDR[0]))).to_excel(xw, sheet_name="Stream Data", header=False, index=False)
+        pd.DataFrame(spaced([UTIL_HDR[0], UTIL_HDR[1]] + util_rows(prob), len(UTIL_HDR[0]))).to_excel(xw, sheet_name="Utility Data", header=False, index=False)
+    src["xlsx_spaced"] = xs
     return src
 
 
@@ -84,6 +93,14 @@ def with_units(prob):
     for u in p["utilities"]:
         for k, un in (("t_supply", "degC"), ("t_target", "degC"), ("heat_flow", "kW"), ("dt_cont", "degC"), ("htc", "kW/m2/K"), ("price", "$/MWh")):
             u[k] = {"value": u[k], "units": un}
+    return p
+
+
+def with_mixed_wrapping(prob):
+    """only the supply temperatures are value-with-unit objects, everything else stays a bare number"""
+    p = copy.deepcopy(prob)
+    for rec in p["streams"] + p["utilities"]:
+        rec["t_supply"] = {"value": rec["t_supply"], "units": "degC"}
     return p
 
 
@@ -145,6 +162,8 @@ def chan_run(case, res: Result):
             "wrapper:csv-pair": lambda: _pp_load(PinchProblem(), src["csv_pair"]).target(),
             "wrapper:xlsx": lambda: _pp_load(PinchProblem(), src["xlsx"]).target(),
             "service:json-dict": lambda: pinch_analysis_service(json.load(open(src["json"]))),
+            "service:mixed-wrapping": lambda: pinch_analysis_service(with_mixed_wrapping(prob)),
+            "wrapper:xlsx-spaced": lambda: _pp_load(PinchProblem(), src["xlsx_spaced"]).target(),
         }
         for name, fn in chans.items():
             n_tr += 1
@@ -378,8 +397,8 @@ def _zone_cause(zones):
 SUBCHECKS = {
     "channels": SubCheck(
         name="channels",
-        describe="the same logical problem through 9 further channels (service with model / value-with-unit / re-read JSON; wrapper with model, JSON, JSON via constructor, CSV directory, CSV pair, XLSX) vs the service on the plain dict",
-        rule="case = (streams, zones, utility set); transitions = 10 channel executions; non-trivial = >=2 zones and >=1 explicit utility; outcomes = distinct reference results",
+        describe="the same logical problem through 11 further channels (service with model / value-with-unit / only the supply temperatures wrapped / re-read JSON; wrapper with model, JSON, JSON via constructor, CSV directory, CSV pair, XLSX, XLSX with an empty spacer row) vs the service on the plain dict",
+        rule="case = (streams, zones, utility set); transitions = 12 channel executions; non-trivial = >=2 zones and >=1 explicit utility; outcomes = distinct reference results",
         cases=chan_cases, run=chan_run,
         bound=lambda t: "every third of (multisets <=2 of 9 types x 2 zone namings x 3 utility sets)" if t == "quick" else "multisets <=2 of 18 types x 2 zone namings x 3 utility sets",
     ),
